@@ -77,6 +77,24 @@ fn fixed_projects() -> Vec<Project> {
         ],
         expected_stdout: Some("PQis\n".into()),
     });
+    // types that occur in definitions only (no function builds or reads a value of them): tuple /
+    // array / Ref helper types come from the field types alone
+    v.push(Project {
+        name: "helper-types-of-unused-definitions".into(),
+        files: vec![(
+            "main.gom".into(),
+            "package Main\n\nstruct Ua { a: (int32, bool), b: [int32; 3], c: Ref[string], d: (string, string, int8), e: [bool; 2], f: Ref[(int32, int32)] }\nstruct Ub { g: (int8, int8), h: [string; 5], i: Ref[int64], j: (uint8, (bool, bool)), k: [[int32; 2]; 2] }\nenum Uc { V1((int64, int8)), V2([string; 4]), V3(Ref[bool]), V4((float64, float32, unit)) }\nenum Ud[T] { W1((T, int32)), W2([T; 2]) }\nfn main() {\n    string_println(\"x\")\n}\n".into(),
+        )],
+        expected_stdout: Some("x\n".into()),
+    });
+    v.push(Project {
+        name: "helper-types-of-unused-definitions-in-a-library".into(),
+        files: vec![
+            ("main.gom".into(), "package Main\nimport L\n\nstruct Ma { a: (int32, string), b: [int8; 2], c: Ref[(bool, bool)] }\nfn main() {\n    string_println(int32_to_string(L::one()))\n}\n".into()),
+            ("L/lib.gom".into(), "package L\n\nstruct La { a: (string, bool), b: [int64; 3], c: Ref[int8], d: (int16, int16, int16) }\nenum Lb { V1((uint8, uint16)), V2([bool; 7]), V3(Ref[float64]) }\nfn one() -> int32 { 1 }\n".into()),
+        ],
+        expected_stdout: Some("1\n".into()),
+    });
     v.extend(single_file_projects());
     v
 }
